@@ -1,4 +1,5 @@
 use super::*;
+use crate::ast_util::purge_trivia;
 use std::convert::Infallible;
 
 use full_moon::{
@@ -87,7 +88,7 @@ impl Visitor for CompareNanVisitor {
                             let range = node.range().unwrap();
                             self.comparisons.push(
                                 Comparison {
-                                    variable: lhs.to_string().trim().to_owned(),
+                                    variable: purge_trivia(lhs.as_ref()).to_string(),
                                     operator: "==".to_owned(),
                                     range: (range.0.bytes(), range.1.bytes()),
                                 }
@@ -99,7 +100,7 @@ impl Visitor for CompareNanVisitor {
                             let range = node.range().unwrap();
                             self.comparisons.push(
                                 Comparison {
-                                    variable: lhs.to_string().trim().to_owned(),
+                                    variable: purge_trivia(lhs.as_ref()).to_string(),
                                     operator: "~=".to_owned(),
                                     range: (range.0.bytes(), range.1.bytes()),
                                 }
